@@ -210,6 +210,49 @@ def check_formulas(part, chunks):
         part.outcome(("formula", len(set(zs)), len(zs)))
 
 
+def check_rejection_history(part):
+    """
+    acceptance must not depend on what was looked up before: strings that merely START like an element (symbol + extra
+    letters, name + digit, ...) are rejected before AND after every valid spelling of every element has been resolved once
+    """
+    from chmpy.core.element import Element
+
+    taken = {e[0].lower() for e in ELEMENTS} | {e[1].lower() for e in ELEMENTS} | {"d"}
+    probes = []
+    for sym, name in [(e[0], e[1]) for e in ELEMENTS]:
+        for cand in (sym + "q1", sym + "qx", sym.lower() + "qq2", name + "1", name.capitalize() + "2", name[:-1] + "q", "x" + name):
+            letters = "".join(ch for ch in cand if ch.isalpha()).lower()
+            if letters not in taken:
+                probes.append(cand)
+    probes += ["Hello", "Copper2", "carbon1", "Cab1", "Nab", "Heq3"]
+    probes = sorted(set(probes))
+    routes = {"Element[...]": lambda s: Element[s], "from_label": Element.from_label, "from_string": Element.from_string}
+
+    def sweep(when):
+        for s in probes:
+            for rname, fn in routes.items():
+                part.ev()
+                part.tr()
+                try:
+                    r = fn(s)
+                except Exception:
+                    continue
+                part.fail("non-element-accepted:%s:%s" % (when, rname), "%r names no element but %s maps it to %r (%s)" % (s, rname, r, when), {"kind": "rejhist"})
+                return False
+        return True
+
+    if sweep("before-any-valid-lookup"):
+        for z in range(1, 104):
+            for rname, fn in routes_for(z):
+                try:
+                    fn()
+                except Exception:
+                    pass
+        sweep("after-all-valid-lookups")
+    part.outcome(("rejhist", len(probes)))
+    part.nstates(2)
+
+
 def worker(part, job):
     kind, payload = job
     if kind == "elements":
@@ -219,6 +262,7 @@ def worker(part, job):
     elif kind == "misc":
         check_non_elements(part)
         check_order(part)
+        check_rejection_history(part)
     elif kind == "formulas":
         check_formulas(part, payload)
 
